@@ -238,8 +238,14 @@ func (g *Graph) Variant(r *rand.Rand) (string, []string) {
 				mark("@type-as-string")
 				o.Set("@type", compactType(n.Types[0]))
 			} else {
-				ts := make([]any, len(n.Types))
-				for i, t := range n.Types {
+				types := n.Types
+				if len(types) > 1 && r.Intn(2) == 0 {
+					// the classes of a node are a set
+					types = Shuffled(r, types)
+					mark("type-order")
+				}
+				ts := make([]any, len(types))
+				for i, t := range types {
 					ts[i] = compactType(t)
 				}
 				o.Set("@type", ts)
@@ -451,4 +457,57 @@ func (o *OObj) has(k string) bool {
 		}
 	}
 	return false
+}
+
+// ContextByReference renders the graph with the prefix context kept in a file of its own: the document's @context is
+// the path of that file (mode "reference"), or a JSON-LD 1.1 context importing it (mode "import"). The same graph.
+func (g *Graph) ContextByReference(ctxFile string, mode string) (doc string, ctxText string) {
+	cmp := func(iri string) string {
+		if strings.HasPrefix(iri, EX) && !strings.ContainsAny(strings.TrimPrefix(iri, EX), "/:") {
+			return "ex:" + strings.TrimPrefix(iri, EX)
+		}
+		return iri
+	}
+	var nodes []any
+	for _, n := range g.Nodes {
+		o := &OObj{}
+		o.Set("@id", n.ID)
+		if len(n.Types) > 0 {
+			ts := make([]any, len(n.Types))
+			for i, t := range n.Types {
+				ts[i] = cmp(t)
+			}
+			o.Set("@type", ts)
+		}
+		for _, p := range n.Props {
+			vals := make([]any, len(p.Values))
+			for i, v := range p.Values {
+				if v.IsRef() {
+					r := &OObj{}
+					r.Set("@id", v.Ref)
+					vals[i] = r
+				} else {
+					l := &OObj{}
+					l.Set("@value", v.Lit)
+					vals[i] = l
+				}
+			}
+			o.Set(cmp(p.Pred), vals)
+		}
+		nodes = append(nodes, o)
+	}
+	d := &OObj{}
+	switch mode {
+	case "import":
+		c := &OObj{}
+		c.Set("@import", ctxFile)
+		c.Set("unusedterm", EX+"unusedterm")
+		d.Set("@context", c)
+	default:
+		d.Set("@context", ctxFile)
+	}
+	d.Set("@graph", nodes)
+	var b strings.Builder
+	emitJSON(&b, d, &jsonStyle{colon: ":"}, 0)
+	return b.String(), `{"@context": {"ex": "` + EX + `"}}`
 }
